@@ -18,8 +18,8 @@ impl Monitor for C01 {
     }
     fn run(&self, ctx: &mut Ctx) {
         let sz = match ctx.tier {
-            Tier::Quick => Sizes { w1_full: 2, w1_class: 3, w2: 3, w3: 60_000, w4: 60_000, bombs: true },
-            Tier::Thorough => Sizes { w1_full: 3, w1_class: 4, w2: 4, w3: 1_500_000, w4: 1_500_000, bombs: true },
+            Tier::Quick => Sizes { w1_full: 3, w1_class: 4, w2: 3, w3: 80_000, w4: 80_000, bombs: true },
+            Tier::Thorough => Sizes { w1_full: 3, w1_class: 5, w2: 4, w3: 1_500_000, w4: 1_500_000, bombs: true },
         };
         for ev in ALL_EV {
             hostile(ctx, ev, &sz, "", &mut |ctx, case| {
